@@ -171,6 +171,7 @@ def run(ctx, chk):
                 uses.add(n[2])
             if n[0] == "field" and show(n) == "self.values.data":
                 uses.add("<data>")
+    lift_histories(ctx, chk, raw)
     chk.check(L, uses <= {"append"}, "LiftStorage:uses", "methods used on the inner storage: %s" % sorted(uses), "rspirv/lift/storage.rs", sample=sorted(uses))
     chk.analysed.update({"data_mutators": names, "token_construction_sites": sorted(aggs)})
 
@@ -279,3 +280,83 @@ def lastseg_(t):
         elif ch == ":" and depth == 0:
             cut = i + 1
     return t[cut:]
+
+
+def lift_histories(ctx, chk, raw):
+    """LiftStorage (the id -> token wrapper the lifter uses): every history of up to three append_id(id, value) over ids {5, 6} and
+    values {A, B}, on a value built by LiftStorage::new(): the k-th append returns the token with index k-1; an id already used
+    panics; afterwards lookup / lookup_safe / lookup_token of a used id yield its value and token, of an unused id panic / None /
+    panic; unwrap() hands out the values in append order"""
+    import itertools
+    from . import progx
+    from ..symeval import NONE, Panic as SPanic
+    LS = "rspirv::lift::storage"
+    H = chk.rule("R-LIFTHIST", "LiftStorage::{new, append_id, lookup, lookup_safe, lookup_token, unwrap} evaluated on every history of up to three "
+                 "append_id calls over two ids and two values: tokens are dense in append order, a repeated id panics, lookups of a used id yield "
+                 "the value appended under it and its token, lookups of an unused id yield None (lookup_safe) or panic, unwrap() is the values in order")
+
+    def run(name, env):
+        f = ctx.rspirv.fn(LS, name, "LiftStorage", False)
+        h = progx.InlineHooks(ctx)
+        h.self_ty = "LiftStorage"
+        ps = [q[0] for q in f["sig"]["params"] if q[0] != "self"]
+        full = {"self": env[0]} if env[0] is not None else {}
+        full.update(dict(zip(ps, env[1:])))
+        return progx.make(h, "LiftStorage::" + name).run(f, full)
+
+    def tok(t):
+        return t[2].get("index") if isinstance(t, tuple) and t and t[0] == "struct" and t[1] == "Token" else None
+    ops = [(i, ("val", v)) for i in (5, 6) for v in ("A", "B")]
+    n, bad = 0, None
+    W = raw.where("append_id", "LiftStorage")
+    try:
+        for ln in (0, 1, 2, 3):
+            for hist in itertools.product(ops, repeat=ln):
+                if bad:
+                    break
+                n += 1
+                text = "; ".join("append_id(%d, %s)" % (i, v[1]) for i, v in hist) or "new()"
+                st = run("new", (None,))
+                model, order, dead = {}, [], False
+                for i, v in hist:
+                    try:
+                        t = run("append_id", (st, i, v))
+                        if i in model:
+                            bad = (text, "a second append under id %d does not panic" % i)
+                            break
+                        model[i] = (v, len(order))
+                        order.append(v)
+                        if tok(t) != len(order) - 1:
+                            bad = (text, "append_id returns %r, expected the token with index %d" % (t, len(order) - 1))
+                            break
+                    except SPanic as x:
+                        if i not in model:
+                            bad = (text, "panics: %s" % x)
+                        dead = True
+                        break
+                if bad or dead:
+                    continue
+                for i in (5, 6, 7):
+                    for m in ("lookup_safe", "lookup", "lookup_token"):
+                        try:
+                            r = run(m, (st, i))
+                        except SPanic:
+                            r = "panic"
+                        if i in model:
+                            v, k = model[i]
+                            if m == "lookup_token":
+                                good = tok(r) == k
+                            else:
+                                pair = r[1] if (m == "lookup_safe" and isinstance(r, tuple) and r and r[0] == "some") else r
+                                good = isinstance(pair, tuple) and pair and pair[0] == "tuple" and pair[1][0] == v and tok(pair[1][1]) == k
+                        else:
+                            good = (r == NONE) if m == "lookup_safe" else (r == "panic")
+                        if not good and not bad:
+                            bad = (text, "%s(%d) yields %s" % (m, i, str(r)[:160]))
+                data = run("unwrap", (st,))
+                if not bad and not (isinstance(data, tuple) and data[0] == "struct" and data[2].get("data") == ("list", order)):
+                    bad = (text, "unwrap() is %s, expected the values %s" % (str(data)[:160], [v[1] for v in order]))
+    except Anchor as ex:
+        bad = ("", "not analysable: %s" % ex)
+    chk.check(H, bad is None, "histories", "" if not bad else "after %s: %s" % bad, W, key="C19:lift-history", sample={"histories": n})
+    chk.floor(H, "histories evaluated", n if bad is None else 85, 85)
